@@ -2,12 +2,15 @@ package main
 
 import (
 	"fmt"
+	"reflect"
+	"sort"
 	"strconv"
 	"strings"
 	"time"
 
 	"github.com/elastic/go-libaudit/v2/auparse"
 
+	"verif/engine/collide"
 	"verif/engine/enumx"
 	"verif/refdata"
 )
@@ -21,6 +24,60 @@ func init() {
 	gens["c04-long"] = c04Long
 	gens["c04-runes"] = c04Runes
 	gens["c04-literals"] = c04Literals
+	gens["c04-collisions"] = c04Collisions
+}
+
+// c04Collisions: pairs of DIFFERENT well-formed headers of equal length that collide under the hash
+// functions caches are keyed with (engine/collide), parsed back to back in both orders, plus pairs that
+// only share their length and first / last bytes: every record reports ITS header.
+func c04Collisions(c *enumx.Ctx) {
+	gen := func(i int) string {
+		return fmt.Sprintf("audit(17000%05d.%03d:%d):", (i*7919)%100000, (i*104729)%1000, 100000+(i*31)%900000)
+	}
+	spans := map[string]func(s string) string{
+		"from-audit":      func(s string) string { return s },
+		"from-paren":      func(s string) string { return s[strings.Index(s, "("):] },
+		"inside":          func(s string) string { return s[strings.Index(s, "(")+1:] },
+		"inside-to-paren": func(s string) string { return s[strings.Index(s, "(")+1 : strings.Index(s, ")")] },
+		"paren-to-paren":  func(s string) string { return s[strings.Index(s, "(") : strings.Index(s, ")")+1] },
+	}
+	var names []string
+	for n := range spans {
+		names = append(names, n)
+	}
+	sort.Strings(names)
+	n := 400000
+	if c.Tier == "thorough" {
+		n = 1500000
+	}
+	total := 0
+	for _, sn := range names {
+		pairs := collide.Find(n, gen, spans[sn], 3)
+		total += len(pairs)
+		for _, p := range pairs {
+			if !c.Mine() {
+				continue
+			}
+			for _, order := range [][2]string{{p.A, p.B}, {p.B, p.A}} {
+				for _, h := range order {
+					// "audit(S.mmm:N):" -> header fields
+					in := h[strings.Index(h, "(")+1 : strings.Index(h, ")")]
+					dot, colon := strings.Index(in, "."), strings.Index(in, ":")
+					checkSuccess(c, header{"SYSCALL", 1300, in[:dot], in[dot+1 : colon], in[colon+1:], " a=b"})
+				}
+			}
+		}
+	}
+	// same length, same first and last bytes, different middle
+	for i := 0; i < 200; i++ {
+		if !c.Mine() {
+			continue
+		}
+		checkSuccess(c, header{"SYSCALL", 1300, "1700000000", "123", fmt.Sprint(100000 + i), " a=b"})
+		checkSuccess(c, header{"SYSCALL", 1300, "1700000000", "123", fmt.Sprint(100000 + (i*37)%200), " a=b"})
+		checkSuccess(c, header{"SYSCALL", 1300, fmt.Sprint(1700000000 + i), "123", "100000", " a=b"})
+	}
+	c.Sample(fmt.Sprintf("%d colliding header pairs under fnv32/fnv32a/crc32/crc32c/adler32/... over 5 spans, each parsed back to back in both orders", total))
 }
 
 // c04Literals: bodies made of the string literals of the tree's auparse package (whatever its code
@@ -223,6 +280,31 @@ func checkSuccess(c *enumx.Ctx, h header) {
 				c.Report("C04 tomapstr:"+k, fmt.Sprintf("ToMapStr()[%q] = %q, want %q from the header of %q", k, ms2[k], w, line), nil)
 				ok = false
 			}
+		}
+		// exported fields the caller may fill in (Payload interface{} ...) are the caller's: whatever is put there,
+		// maps that use the header's key names included, the header keys come from the header
+		mv := reflect.ValueOf(m).Elem()
+		hostile := []interface{}{
+			map[string]interface{}{"record_type": "payload", "@timestamp": "payload", "sequence": "payload", "raw_msg": "payload", "x": 1},
+			map[string]string{"record_type": "payload", "@timestamp": "payload", "sequence": "payload", "raw_msg": "payload"},
+			[]string{"record_type", "payload"}, "payload", 42, struct{ Sequence string }{"payload"},
+		}
+		for fi := 0; fi < mv.NumField(); fi++ {
+			f := mv.Field(fi)
+			if !f.CanSet() || f.Kind() != reflect.Interface {
+				continue
+			}
+			for _, hv := range hostile {
+				f.Set(reflect.ValueOf(hv))
+				msp := m.ToMapStr()
+				for k, w := range wantKeys {
+					if g, _ := msp[k].(string); g != w {
+						c.Report("C04 tomapstr-caller-field:"+k, fmt.Sprintf("with the exported field %s set to %#v, ToMapStr()[%q] = %v, want %q from the header of %q", mv.Type().Field(fi).Name, hv, k, msp[k], w, line), nil)
+						ok = false
+					}
+				}
+			}
+			f.Set(reflect.Zero(f.Type()))
 		}
 		// "always": also after the caller has post-processed the map it was given (dropped raw_msg,
 		// renamed @timestamp, turned the sequence into a number) - the next ToMapStr starts from the header
